@@ -51,6 +51,21 @@ class WouldBlock(BaseException):
     """The real call would not return (idle peer)."""
 
 
+class Hang(BaseException):
+    """The code under test does not come back from one API call: it keeps polling the socket without consuming anything
+    new (an endless loop).  Reported as the observation `crash:Hang`, never as a time-out of the harness."""
+
+
+TICK_LIMIT = 3000       # select / recv calls within ONE API call; the longest legitimate call makes a few per frame
+_TICKS = [0]
+
+
+def _tick():
+    _TICKS[0] += 1
+    if _TICKS[0] > TICK_LIMIT:
+        raise Hang()
+
+
 class FakeSock:
     def __init__(self, data: bytes, end: str, cuts: Sequence[int] = ()):
         self.data = data
@@ -69,6 +84,7 @@ class FakeSock:
         return 9999
 
     def _take(self, n: int, flags: int) -> bytes:
+        _tick()
         if self.closed:
             raise OSError(9, "Bad file descriptor")
         avail = len(self.data) - self.pos
@@ -148,6 +164,7 @@ class FakeSelect:
 
     @staticmethod
     def select(r, w, x, timeout=None):
+        _tick()
         rr = [s for s in r if getattr(s, "readable", lambda: True)()]
         if r and not rr and not w:
             if timeout is None:
@@ -329,6 +346,7 @@ def run_case(cid: str, case: Dict[str, Any]) -> List[str]:
             continue
         tval = {"none": None, "zero": 0, "pos": 0.25, "neg": -1}[tmo]
         before = sock.pos
+        _TICKS[0] = 0
         try:
             m = read_call(c, tval, ack, sync, len(obs))
             if m is None:
@@ -338,6 +356,9 @@ def run_case(cid: str, case: Dict[str, Any]) -> List[str]:
                 held.append((len(obs), m))      # the caller keeps the message: it is rendered again after the last read
         except WouldBlock:
             r = "blocked"
+            stop = True
+        except Hang:
+            r = "crash:Hang"
             stop = True
         except EX.UnknownMessageType as e:
             hh = e.args[1] if len(e.args) > 1 else None
@@ -676,11 +697,15 @@ def run_life_case(cid: str, case: Dict[str, Any]) -> List[str]:
             data = b"".join(h + p for h, p in w["frames"]) + w["tail"]
             sock = FakeSock(data, w["end"], w.get("cuts", ()))
             E["queue"].append(sock)
+            _TICKS[0] = 0
             try:
                 c.connect("h:1")
                 r = "joined"
             except WouldBlock:
                 r = "blocked"
+                stop = True
+            except Hang:
+                r = "crash:Hang"
                 stop = True
             except EX.AcknowledgementTimeout:
                 r = "ackTimeout"
@@ -706,11 +731,15 @@ def run_life_case(cid: str, case: Dict[str, Any]) -> List[str]:
                 continue
             tval = {"none": None, "zero": 0, "pos": 0.25, "neg": -1}[tmo]
             before = cur.pos if cur is not None else 0
+            _TICKS[0] = 0
             try:
                 m = read_call(c, tval, ack, sync, len(lines))
                 r = "none" if m is None else f"msg {hexs(mask(bytes(m.header)))} {hexs(bytes(m.data))}"
             except WouldBlock:
                 r = "blocked"
+                stop = True
+            except Hang:
+                r = "crash:Hang"
                 stop = True
             except EX.UnknownMessageType as e:
                 hh = e.args[1] if len(e.args) > 1 else None
@@ -739,6 +768,7 @@ def run_life_case(cid: str, case: Dict[str, Any]) -> List[str]:
             lines.append("CALL disconnect")
             if stop:
                 continue
+            _TICKS[0] = 0
             c.disconnect()
             lines.append("UOBS")
         elif kind == "sendFail":
@@ -747,6 +777,7 @@ def run_life_case(cid: str, case: Dict[str, Any]) -> List[str]:
                 continue
             if cur is not None:
                 cur.send_dead = True
+            _TICKS[0] = 0
             try:
                 c.send_signal(1234)
                 r = "joined"        # a send that succeeds is not what this call stands for
@@ -754,6 +785,9 @@ def run_life_case(cid: str, case: Dict[str, Any]) -> List[str]:
                 r = "lost"
             except EX.NotConnectedError:
                 r = "notConnected"
+            except Hang:
+                r = "crash:Hang"
+                stop = True
             except Exception as e:  # noqa: BLE001
                 r = f"crash:{type(e).__name__}"
             lines.append(f"COBS 0 {int(bool(c.connected))} {r}")
